@@ -79,7 +79,11 @@ def confirm(outdir):
             os.makedirs(d, exist_ok=True)
             shutil.copy(patch, os.path.join(d, "patch.diff"))
             shutil.copy(demo, os.path.join(d, "demo.rs"))
-            json.dump({"id": rec["id"], "breaks_property": pid, "summary": rec["summary"], "needs_to_manifest": rec["needs"],
+            prev = {}
+            if os.path.exists(os.path.join(d, "meta.json")):
+                prev = {k: v for k, v in json.load(open(os.path.join(d, "meta.json"))).items()
+                        if k in ("checks_reporting", "caught_by_own_property_check", "drift_steps", "examples", "ran")}
+            json.dump({**prev, "id": rec["id"], "breaks_property": pid, "summary": rec["summary"], "needs_to_manifest": rec["needs"],
                        "source": "independent sub-agent given only the property text and a scratch worktree",
                        "confirmed": {"how": "scratch worktree of /repo HEAD: git apply; cargo build (debug+release); cargo test --lib (131 pass); "
                                             "cargo test --test %s %s fails with the change and passes without it" % (tname, " ".join(flags)),
